@@ -836,6 +836,68 @@ def hand_docs(tier='quick'):
                     return matrix_doc(['cfg: [' + ', '.join(row) + ']', 'include: [{zz: 1}]'], e)
                 both_with('row%d-pos%d' % (n, pos), row_exprs, build)
 
+    # Whole-section forms: `include:`, `exclude:`, a whole row and the whole `matrix:` given as ONE expression whose
+    # static type walks down the loosening order (array<{k: string}> -> array<{k: any}> -> array<any> -> any),
+    # combined with 0, 1, 2 static rows.  The definition line is itself a site (the section demands an array/object
+    # there); the uses are a key only the expression side defines, the row keys, `.*`.
+    def section_doc(mlines, e, whole_matrix=None):
+        d = Doc()
+        d.add('on: push')
+        d.add('jobs:')
+        d.add('  j:')
+        d.add('    strategy:')
+        if whole_matrix is not None:
+            d.site('      matrix: ', whole_matrix)
+        else:
+            d.add('      matrix:')
+            for ln in mlines:
+                if isinstance(ln, tuple):
+                    d.site('        ' + ln[0], ln[1])
+                else:
+                    d.add('        ' + ln)
+        d.site('    runs-on: ', e)
+        d.add('    steps:')
+        use_sites(d, e, '      ')
+        return d
+
+    def chain_pairs(chain):
+        return [(a, b) for a in chain for b in chain if a[1] < b[1]]
+    unknown_arr = [('A2', 2, 'fromJSON(vars.X).*'), ('A2b', 2, 'github.event.client_payload.targets.*'), ('A2c', 2, "fromJSON('[]')")]
+    rowsets = [[], ['os: [x]'], ['os: [x]', 'ver: [1]']]
+    sec_exprs = ['matrix.arch', 'matrix.os', 'matrix.ver', 'matrix.*', 'matrix.zz', 'matrix', 'matrix.arch.x', "matrix['arch']"]
+    inc_chain = [('A0', 0, "fromJSON('[{\"arch\":\"x\"}]')"), ('A1', 1, "fromJSON('[{\"arch\":\"x\"},{\"arch\":{}}]')")] + \
+        unknown_arr + [('A3', 3, 'fromJSON(vars.X)')]
+    for a, b in chain_pairs(inc_chain):
+        for rows in rowsets:
+            both_with('section-include-%s-%s' % (a[0], b[0]), sec_exprs,
+                      lambda v, e, a=a, b=b, rows=rows: section_doc(rows + [('include: ', (b if v else a)[2])], e))
+    exc_chain = [('E0', 0, "fromJSON('[{\"os\":\"x\"}]')"), ('E1', 1, "fromJSON('[{\"os\":\"x\"},{\"os\":{}}]')")] + \
+        [('E' + n[1:], l, t) for n, l, t in unknown_arr] + [('E3', 3, 'fromJSON(vars.X)')]
+    for a, b in chain_pairs(exc_chain):
+        for rows in rowsets[1:]:
+            both_with('section-exclude-%s-%s' % (a[0], b[0]), sec_exprs[:5],
+                      lambda v, e, a=a, b=b, rows=rows: section_doc(rows + [('exclude: ', (b if v else a)[2])], e))
+    row_chain = [('R0', 0, "fromJSON('[\"x\"]')"), ('R0b', 0, "fromJSON('[{\"name\":\"x\"}]')"),
+                 ('R1', 1, "fromJSON('[{\"name\":\"x\"},{\"name\":{}}]')")] + \
+        [('R' + n[1:], l, t) for n, l, t in unknown_arr] + [('R3', 3, 'fromJSON(vars.X)')]
+    row_uses = ['matrix.os', 'matrix.os.name', 'matrix.os[0]', 'matrix.os.*', 'matrix.*', 'matrix.ver', 'join(matrix.os)',
+                "startsWith(matrix.os, 'x')", 'matrix.os.name.x']
+    for a, b in chain_pairs(row_chain):
+        if a[0] == 'R0' and b[0] == 'R1':
+            continue        # array<string> and array<{name: any}> are unrelated
+        for rows in ([], ['ver: [1]'], ['ver: [1]', 'arch: [{x: 1}]']):
+            both_with('section-row-%s-%s' % (a[0], b[0]), row_uses,
+                      lambda v, e, a=a, b=b, rows=rows: section_doc(rows + [('os: ', (b if v else a)[2])], e))
+    mat_chain = [('M0', 0, "fromJSON('{\"os\":[\"x\"],\"include\":[{\"arch\":\"x\"}]}')"),
+                 ('M1', 1, "fromJSON('{\"os\":[\"x\"],\"include\":[{\"arch\":\"x\"},{\"arch\":{}}]}')"),
+                 ('M3', 3, 'fromJSON(vars.M)')]
+    # (an `include` member typed array<any> inside the object cannot be written except as the literal `[]`, which is
+    # known to add no key; the diagnostic for matrix.arch is right there, so that form is not a loosening)
+    mat_uses = ['matrix.arch', 'matrix.os', 'matrix.os[0]', 'matrix.*', 'matrix.zz', 'matrix', 'matrix.arch.x']
+    for a, b in chain_pairs(mat_chain) + [(('M0n', 0, "fromJSON('{\"os\":[\"x\"]}')"), mat_chain[-1])]:
+        both_with('section-matrix-%s-%s' % (a[0], b[0]), mat_uses,
+                  lambda v, e, a=a, b=b: section_doc([], e, whole_matrix=(b if v else a)[2]))
+
     # callee input typed vs untyped, caller unchanged
     for row in ('a: [{x: 1}]', 'a: [[1]]', 'a: [1]', 'a: [x]', 'a: [null]', 'a: [true]', 'a: ' + ANYX % 'A'):
         both('callee-input', lambda v, e, r=row: matrix_doc([r, 'include: [{zz: 1}]'], e.replace('R', 'matrix.a')),
@@ -864,8 +926,11 @@ def lint_part(ck, sd, tier, rng, finds, pairs, lintable):
         cases.append((name, d1, d2, c1, c2, None))
     inp = []
     for i, (name, d1, d2, c1, c2, _) in enumerate(cases):
-        if [(s['line'], s['col'], s['expr']) for s in d1.sites] != [(s['line'], s['col'], s['expr']) for s in d2.sites] \
-                and name != 'fromjson-literal':
+        if name.startswith('section-'):
+            same_place = [(s['line'], s['col']) for s in d1.sites] == [(s['line'], s['col']) for s in d2.sites]
+        else:
+            same_place = [(s['line'], s['col'], s['expr']) for s in d1.sites] == [(s['line'], s['col'], s['expr']) for s in d2.sites]
+        if not same_place and name != 'fromjson-literal':
             raise Inconclusive('renderer: the two variants of %s place the expression differently' % name)
         inp.append({'id': 2 * i, 'src': d1.text(), 'callee': c1, 'sites': d1.sites})
         inp.append({'id': 2 * i + 1, 'src': d2.text(), 'callee': c2, 'sites': d2.sites})
